@@ -32,6 +32,16 @@ Theorem C12_restore_nested : forall t w, balanced t w ->
 Proof. exact balanced_restores. Qed.
 Print Assumptions C12_restore_nested.
 
+(* also for a context created earlier (its parent may differ from what is current at entry) *)
+Theorem C12_restore_pre : forall s t x c p h,
+  nth_error s t = Some x -> alive x = true -> pre x = Some (c, p) -> fst c = t ->
+  let s1 := fst (step s (EnterPre t)) in
+  snd (step s (EnterPre t)) = OEntered c p /\
+  exists x2, nth_error (fst (step s1 (Leave t h))) t = Some x2 /\ stack x2 = stack x /\
+             snd (step s1 (Leave t h)) = OCurrent (top x).
+Proof. exact leave_restores_pre. Qed.
+Print Assumptions C12_restore_pre.
+
 (* a new context takes the context current at its creation as parent *)
 Theorem C12_parent : forall s t x, nth_error s t = Some x -> snd (step s (NewCtx t)) = OParent (top x).
 Proof. exact parent_is_current_at_creation. Qed.
